@@ -80,3 +80,60 @@ add("C17",
     "Bounded: 3 ids, 2 mutable categories + 1 query-only category, 4 units, 3 mapping literals; depth 4 (quick) / 6 (thorough) model check; "
     "SetCurrent selects registered systems or None; re-selection may notify (the code does).",
     "DESIGN.md 6/C17")
+
+_QALG = ("QAlg.tla transcribes _MatchQuantities / _ConvertMatching / Sum-Subtract / Multiply-Divide-FloorDivide / __pow__ / __lt__ / "
+         "ConvertScalarValue and the string builders over an append-only pool of Scalars whose initial members are atoms or one product / "
+         "quotient / square of atoms of the real default database (9 (category, unit) atoms incl. two categories of one type, scaled and "
+         "affine units); the unit table is exported from the running code. ")
+_QNOTE = ("Bounded: two seeds + 1 step and two atoms + 3 steps (quick; pseudo-random 1/k sample of the transitions replayed), two seeds + 2 steps "
+          "(thorough model check, all 1-step transitions replayed). Float rounding observed, judged at 1e-9 relative to the magnitudes that "
+          "entered the operation. Trusted: TLC, harness/qalg.py projection.")
+
+add("C03",
+    "TLC model check of the quantity-algebra machine (QAlg.tla, action property C03_Sum stated with an independent re-expression operator) "
+    "+ replay of generated transitions on real Scalars",
+    _QALG + "C03_Sum: for dimension-compatible operands the sum/difference has the left operand's composing map and the value a.v +- b "
+    "re-expressed per unit ratio raised to the exponent (affine conversion only for simple quantities); for scale-only units base magnitudes "
+    "add. TLC checks it on every transition; every sampled/all transition is executed on real Scalars and outcome family, composing map, "
+    "value, strings are compared with the exact prediction.", _QNOTE, "DESIGN.md 6/C03")
+add("C04",
+    "TLC model check of the quantity-algebra machine (QAlg.tla, C04_Prod / C04_Pow stated on dimension vectors and base magnitudes) + replay",
+    _QALG + "C04_Prod/C04_Pow: dimension exponents per quantity type add/subtract, no zero exponent or zero-total unit survives, a/a is "
+    "dimensionless, a**n is the n-fold product, base-unit magnitudes multiply/divide (scale-only units; floor division up to flooring).",
+    _QNOTE, "DESIGN.md 6/C04")
+add("C05",
+    "TLC model check (QAlg.tla C05_FailClosed, C13_Frozen) + replay of rejected calls + TLC trace validation (MC_Judge.tla) of incompatible "
+    "calls across quantity types of the real table",
+    _QALG + "C05_FailClosed: sums of different dimension vectors raise a units error, orderings a type error, conversions to a unit of another "
+    "type a units error (exemption: empty quantity), and a failing step leaves the pool unchanged. On the real table 2500 seeded (quick) / all "
+    "(thorough) ordered pairs of different quantity types x 17 incompatible calls (Convert, GetValue, CreateCopy, +, -, <, >=, ObtainQuantity, "
+    "Scalar/Array/FractionScalar construction and conversion) are recorded with registry and operand projections before/after and validated "
+    "by TLC; valid operations are replayed afterwards.", _QNOTE + " 'dimensionless' and 'Unknown' are exempt by the property.", "DESIGN.md 6/C05")
+add("C07",
+    "Replay of the quantity-algebra machine (QAlg.tla) with a monitor over every cached / seen Quantity + TLC trace validation (MC_Judge.tla) of "
+    "request forms, copies, pickles, mutators and a monitored history",
+    _QALG + "The pool is append-only in the specification; on the code every quantity in the database's cache and every quantity seen is "
+    "re-projected (getters, composing map contents, hash) after each replayed step, ==/hash are compared pairwise with composing-map equality, "
+    "copies must be identical and pickles equal. Request forms (unit, unit+category, category only, caption, composing lists, ordered maps incl. "
+    "two categories of one type in different units, empty, unknown) x atoms: repeated request identical, equal resolution equal/hash-equal, "
+    "different resolution unequal, ReadOnlyError; plus a seeded history of 600 mixed operations (failing ones included) - all validated by TLC.",
+    _QNOTE, "DESIGN.md 6/C07")
+add("C13",
+    "QAlg.tla frame condition C13_Frozen (append-only pool) bound by operand snapshots on every replayed step + TLC trace validation (MC_Judge.tla) "
+    "of operand/container projections around seeded operations and of copies/pickles",
+    _QALG + "Every pool member is snapshotted before and re-projected after the last step of every replayed transition. 800 (quick) seeded "
+    "operations over Scalar / Array (list, tuple, float and integer ndarray) / FixedArray / FractionScalar operands - simple, derived, empty and "
+    "unknown-caption - record the projection of every operand and of the caller's own containers around the call (arithmetic, comparison, "
+    "conversion, validation, formatting, ChangingIndex) and copy/deepcopy/CreateCopy/pickle results; TLC validates each event.",
+    _QNOTE, "DESIGN.md 6/C13")
+add("C20",
+    "TLC enumeration of the round-trip theorem of the specified rendering (MC_C20.tla, UnitGrammar!Render/Read) + replay of QAlg.tla product "
+    "transitions with all strings + TLC trace validation of recorded strings against the composing map the code reports",
+    "UnitGrammar.tla specifies the derived-unit string (table grammar) and QStr.tla the category / quantity-type / unit-name strings. TLC proves by "
+    "enumeration over all lists of up to 3 distinct atoms with exponents -4..4 that the specified string parses back to the joined units (negative "
+    "control: no separator between denominator factors fails). Every product/quotient/power transition of the quantity-algebra machine is "
+    "replayed and GetUnit/GetCategory/GetQuantityType/GetUnitName/repr/str compared with the prediction; 1500 (quick) seeded entry lists with up "
+    "to 6 factors and repeated quantity types under different categories go through ObtainQuantity and TLC compares the code's strings with "
+    "Render/MakeStr of the map the code reports and parses the code's unit string back; every unit and category of the table is checked for the "
+    "simple-quantity strings.",
+    _QNOTE + " Atoms are table symbols that the grammar does not decompose and that do not end in a digit.", "DESIGN.md 6/C20")
